@@ -211,6 +211,18 @@ impl FixtureDatabase {
             return Some(last_def.clone());
         }
 
+        // Priority 1b: Fixtures the file imports itself
+        // (e.g. a test module doing `from .helpers import my_fixture`)
+        if self.is_fixture_imported_in_file(fixture_name, file_path) {
+            if let Some(def) = self.find_imported_definition(fixture_name, file_path, &filter) {
+                info!(
+                    "Found fixture {} imported into the same file (original: {:?})",
+                    fixture_name, def.file_path
+                );
+                return Some(def);
+            }
+        }
+
         // Priority 2: Search upward through conftest.py files
         let mut current_dir = file_path.parent()?;
 
@@ -522,6 +534,21 @@ impl FixtureDatabase {
             {
                 available_fixtures.push(def.clone());
                 seen_names.insert(fixture_name.clone());
+            }
+        }
+
+        // Priority 1b: Fixtures the file imports itself
+        if self.file_cache.contains_key(file_path) || file_path.exists() {
+            let mut visited = HashSet::new();
+            for fixture_name in self.get_imported_fixtures(file_path, &mut visited) {
+                if !seen_names.contains(&fixture_name) {
+                    if let Some(def) =
+                        self.find_imported_definition(&fixture_name, file_path, |_| true)
+                    {
+                        available_fixtures.push(def);
+                        seen_names.insert(fixture_name);
+                    }
+                }
             }
         }
 
